@@ -63,6 +63,10 @@ structure IdentTok where
   sp : Sp
   deriving DecidableEq, Repr, Inhabited
 
+/-- The identifier without a raw-identifier prefix (`format_ident!` strips `r#`). -/
+def IdentTok.unraw (i : IdentTok) : String :=
+  if i.name.startsWith "r#" then (i.name.drop 2).toString else i.name
+
 inductive FieldName
   | ident (i : IdentTok)
   | index (n : Nat)
